@@ -28,6 +28,9 @@ from .tlc import MachineryError
 
 REALISATIONS = ("copy_context", "threads", "asyncio")
 TOP = "@top"
+CVK = "@cv"   # LocalProxy(plain ContextVar without default)
+FNK = "@fn"   # LocalProxy(callable)
+CTORS = ("default", "cv", "cvdef")  # how Local / LocalStack are constructed (Env)
 UNBOUND_REPR = "<LocalProxy unbound>"
 
 
@@ -101,20 +104,48 @@ def mkop(ctx, op, n="", b=0, v=0, k="", child=0):
 class Env:
     """The werkzeug objects of one trace (shared by all contexts, like module globals)."""
 
-    def __init__(self, names, nboxes, made=()):
+    def __init__(self, names, nboxes, made=(), ctor="default"):
         from werkzeug.local import Local, LocalManager, LocalStack
 
         self.names = list(names)
-        self.ns = Local()
-        self.stack = LocalStack()
+        # constructor variants: own ContextVar / caller-supplied ContextVar without default /
+        # caller-supplied ContextVar with a default (which the locals never hand out)
+        if ctor == "cv":
+            self.ns = Local(context_var=contextvars.ContextVar("verif.ns"))
+            self.stack = LocalStack(context_var=contextvars.ContextVar("verif.stack"))
+        elif ctor == "cvdef":
+            self.ns = Local(contextvars.ContextVar("verif.ns", default={}))
+            self.stack = LocalStack(contextvars.ContextVar("verif.stack", default=[]))
+        else:
+            self.ns = Local()
+            self.stack = LocalStack()
+        self.cv = contextvars.ContextVar("verif.plain")  # behind the @cv proxy, no default
         self.manager = LocalManager([self.ns, self.stack])
         self.boxes = make_objects(nboxes)
         self.proxies = {}
+        self.inflight = {}   # context id -> unclosed iterable returned by the manager middleware
+        self._wrapped = {}   # the manager in use and, per form, the one middleware object all requests use
         for k in made:
             self.make_proxy(k)
 
-    def make_proxy(self, k):
-        self.proxies[k] = self.stack() if k == TOP else self.ns(k)
+    def make_proxy(self, k, how=0):
+        """how: 0 = ns(name) / stack();  1 = LocalProxy(...) called directly;  2 = ... with
+        unbound_message.  The ContextVar and callable proxies only have the direct form."""
+        from werkzeug.local import LocalProxy
+
+        kw = {"unbound_message": "nothing here"} if how == 2 else {}
+        if k == CVK:
+            self.proxies[k] = LocalProxy(self.cv, **kw)
+        elif k == FNK:
+            # the documented legacy form LocalProxy(lambda: other_proxy.attr): a callable that
+            # itself says RuntimeError where nothing is bound
+            self.proxies[k] = LocalProxy(self.ns("x")._get_current_object, **kw)
+        elif how == 0:
+            self.proxies[k] = self.stack() if k == TOP else self.ns(k)
+        elif k == TOP:
+            self.proxies[k] = LocalProxy(self.stack, **kw)
+        else:
+            self.proxies[k] = LocalProxy(self.ns, k, **kw)
 
     # -- executed inside the acting context ---------------------------------------------------
     def perform(self, o):
@@ -173,8 +204,17 @@ class Env:
             if op == "mw":
                 return self._request(o)
             if op == "mkproxy":
-                self.make_proxy(o["k"])
+                self.make_proxy(o["k"], o["v"])
                 return _ok()
+            if op == "nop":
+                return _ok()
+            if op == "cv_set":
+                self.cv.set(self.boxes[o["b"]])
+                return _ok()
+            if op == "mw_enter":
+                return self._enter(o)
+            if op == "mw_close":
+                return self._close(o)
             if op == "proxy_read":
                 return self._box(self.proxies[o["k"]]._get_current_object())
             if op == "proxy_mutate":
@@ -210,36 +250,64 @@ class Env:
         try:
             return self._observe(c)
         except Exception:
-            return {"c": c, "get": [{"n": n, "id": -1} for n in self.names], "iter": [], "top": -1,
+            return {"c": c, "get": [{"n": n, "id": -1, "h": -1, "d": -1} for n in self.names], "iter": [], "top": -1,
                     "stack": [-1], "sval": [-1], "prox": []}
 
-    def _request(self, o):
-        """One WSGI request through the LocalManager middleware, in the current context."""
-        ns, stack, boxes = self.ns, self.stack, self.boxes
+    def _middleware(self, form):
+        """The middleware object of the manager in use: built once, shared by every request of
+        every context (what each request's app does travels in the environ)."""
+        if self._wrapped.get("manager") is not self.manager:
+            self._wrapped = {"manager": self.manager}
+        key = form
+        if key not in self._wrapped:
+            ns, stack, boxes = self.ns, self.stack, self.boxes
 
-        def application(environ, start_response):
-            if o["n"]:
-                setattr(ns, o["n"], boxes[o["b"]])
-            elif o["b"]:
-                stack.push(boxes[o["b"]])
-            if o["v"] == 3:
-                raise AppError("app failed")
-            start_response("200 OK", [("Content-Type", "text/plain")])
-            return [b"a", b"b"]
+            def application(environ, start_response):
+                o = environ["verif.plan"]
+                if o["n"]:
+                    setattr(ns, o["n"], boxes[o["b"]])
+                elif o["b"]:
+                    stack.push(boxes[o["b"]])
+                if o["v"] == 3:
+                    raise AppError("app failed")
+                start_response("200 OK", [("Content-Type", "text/plain")])
+                return [b"a", b"b"]
 
-        if o["k"] == "deco":
-            wrapped = self.manager.middleware(application)  # @manager.middleware
-        else:
-            wrapped = self.manager.make_middleware(application)
-        it = wrapped({"REQUEST_METHOD": "GET"}, lambda status, headers, exc_info=None: None)
+            if form == "deco":
+                wrapped = self.manager.middleware(application)  # @manager.middleware
+            else:
+                wrapped = self.manager.make_middleware(application)
+            self._wrapped[key] = wrapped
+        return self._wrapped[key]
+
+    def _call(self, o):
+        return self._middleware(o["k"])({"REQUEST_METHOD": "GET", "verif.plan": o},
+                                         lambda status, headers, exc_info=None: None)
+
+    @staticmethod
+    def _finish(it, v):
         try:
-            if o["v"] == 0:
+            if v == 0:
                 for _ in it:
                     pass
-            elif o["v"] == 2:
+            elif v == 2:
                 next(iter(it))
         finally:
             it.close()  # what a WSGI server does when the response has been sent
+
+    def _request(self, o):
+        """One whole WSGI request through the LocalManager middleware, in the current context."""
+        self._finish(self._call(o), o["v"])
+        return _ok()
+
+    def _enter(self, o):
+        """First half of a request: the server calls the middleware; the iterable stays open."""
+        self.inflight[o["ctx"]] = self._call(o)
+        return _ok()
+
+    def _close(self, o):
+        """Second half: the body is (partly) consumed and the iterable closed, in this context."""
+        self._finish(self.inflight.pop(o["ctx"]), o["v"])
         return _ok()
 
     # -- identification of objects (by identity) and of their state ------------------------------
@@ -267,11 +335,21 @@ class Env:
         get = []
         for n in self.names:
             try:
-                get.append({"n": n, "id": self._ident(getattr(self.ns, n))})
+                g = {"n": n, "id": self._ident(getattr(self.ns, n))}
             except AttributeError:
-                get.append({"n": n, "id": 0})
+                g = {"n": n, "id": 0}
             except Exception:
-                get.append({"n": n, "id": -1})
+                g = {"n": n, "id": -1}
+            # hasattr() / getattr(.., default): 1 / 0, -1 = an exception other than AttributeError escaped
+            try:
+                g["h"] = int(hasattr(self.ns, n))
+            except Exception:
+                g["h"] = -1
+            try:
+                g["d"] = int(getattr(self.ns, n, _MISSING) is _MISSING)
+            except Exception:
+                g["d"] = -1
+            get.append(g)
         it = [{"n": str(n), "id": self._ident(b), "val": self._state(b)} for n, b in self.ns]
         it.sort(key=lambda e: e["n"])
         top = self.stack.top
@@ -335,11 +413,11 @@ class Env:
             e["val"] = -1
         # other forwarded dunders, each computed through the proxy in this context
         other = 0 if obj is None else obj
-        # [len, iter, [0], 7 in, +, hash, str] as codes
+        # [len, iter, [0], 7 in, +, hash, str, dir() non-empty] as codes
         e["fw"] = [_code(lambda: len(p)), _code(lambda: len(list(iter(p)))),
                    _code(lambda: (p[0], 1)[1]), _code(lambda: 7 in p),
                    _code(lambda: _size(p + other)), _code(lambda: (hash(p), 1)[1]),
-                   _code(lambda: (str(p), 1)[1])]
+                   _code(lambda: (str(p), 1)[1]), _code(lambda: int(len(dir(p)) > 0))]
         # the universe objects that ==, str() and hash() through the proxy cannot tell from it
         try:
             sp = str(p)
@@ -356,6 +434,9 @@ class Env:
 
 def _ok():
     return {"tag": "ok", "id": 0, "exc": ""}
+
+
+_MISSING = object()
 
 
 def _size(v):
@@ -557,11 +638,13 @@ def _process_loop():
     return _LOOP[pid]
 
 
-def run_trace(real, ops, *, names=("x", "y", "z"), nboxes=12, made=()):
-    """Execute `ops` in the given realisation; returns the trace lines (cfg + one per op)."""
-    env = Env(names, nboxes, made)
+def run_trace(real, ops, *, names=("x", "y", "z"), nboxes=12, made=(), ctor="default"):
+    """Execute `ops` in the given realisation; returns the trace lines (cfg + one per op).
+    A "nop" line also carries what the driver's own (main) context reads: it never writes, so it
+    must see nothing, before and after everything the other contexts did."""
+    env = Env(names, nboxes, made, ctor)
     world = AsyncioWorld(env, _process_loop()) if real == "asyncio" else WORLDS[real](env)
-    lines = [{"op": "cfg", "real": real, "made": sorted(made)}]
+    lines = [{"op": "cfg", "real": real, "made": sorted(made), "ctor": ctor}]
     try:
         for i, o in enumerate(ops):
             r = world.do(o)
@@ -569,6 +652,7 @@ def run_trace(real, ops, *, names=("x", "y", "z"), nboxes=12, made=()):
             ln["i"] = i
             ln["r"] = r
             ln["obs"] = world.observe()
+            ln["main"] = [env.observe(1)] if o["op"] == "nop" else []  # judged as an empty view
             lines.append(ln)
     finally:
         world.close()
@@ -668,10 +752,11 @@ def random_ops(rng, length, *, nctx=3, names=("x", "y", "z"), nboxes=12, vals=(0
     operations enabled: which contexts exist, which proxies exist, stack depth is irrelevant)."""
     alive = [1]
     made = set(made)
-    kinds = list(names) + [TOP]
+    kinds = list(names) + [TOP, CVK, FNK]
     depth = {1: 0}
-    ops = []
+    ops = [mkop(1, "nop")]  # reads before any write, in the root and in the main context
     nmul = 0
+    infl = set()            # contexts with a request in flight
     while len(ops) < length:
         c = rng.choice(alive)
         if rng.random() < 0.09:  # LocalManager call forms and the other release paths
@@ -680,6 +765,8 @@ def random_ops(rng, length, *, nctx=3, names=("x", "y", "z"), nboxes=12, vals=(0
                 ops.append(mkop(c, "cleanup"))
                 depth[c] = 0
             elif u < 0.5:
+                if infl:  # (vocabulary: no new manager while a request of the old one is in flight)
+                    continue
                 ops.append(mkop(c, "mkmgr", k=rng.choice(["none", "local", "stack", "both", "lstack"])))
             elif u < 0.6:
                 ops.append(mkop(c, "mgr_append", k=rng.choice(["local", "stack"])))
@@ -692,6 +779,24 @@ def random_ops(rng, length, *, nctx=3, names=("x", "y", "z"), nboxes=12, vals=(0
                 ops.append(mkop(c, "mw", n=n, b=b, v=rng.randint(0, 3), k=rng.choice(["make", "deco"])))
             else:
                 ops.append(mkop(c, rng.choice(["release_dunder", "release_stack_dunder", "pop_all"])))
+            continue
+        if rng.random() < 0.10:  # overlapping requests: enter / close halves, per context
+            if c in infl:
+                ops.append(mkop(c, "mw_close", v=rng.randint(0, 2)))
+                infl.discard(c)
+            else:
+                how = rng.random()
+                n, b = (rng.choice(names), rng.randint(1, nboxes)) if how < 0.6 else \
+                    ("", rng.randint(1, nboxes)) if how < 0.8 and depth[c] < max_stack else ("", 0)
+                if not n and b:
+                    depth[c] += 1
+                v = 3 if rng.random() < 0.2 else 0
+                ops.append(mkop(c, "mw_enter", n=n, b=b, v=v, k=rng.choice(["make", "deco"])))
+                if v == 0:
+                    infl.add(c)
+            continue
+        if rng.random() < 0.04:
+            ops.append(mkop(c, "nop") if rng.random() < 0.5 else mkop(c, "cv_set", b=rng.randint(1, nboxes)))
             continue
         w = rng.random()
         if w < 0.10 and len(alive) < nctx:
@@ -727,7 +832,7 @@ def random_ops(rng, length, *, nctx=3, names=("x", "y", "z"), nboxes=12, vals=(0
             depth[c] = 0  # (an upper bound is all `depth` is used for)
         elif w < 0.86 or not made:
             k = rng.choice(kinds)
-            ops.append(mkop(c, "mkproxy", k=k))
+            ops.append(mkop(c, "mkproxy", k=k, v=rng.randint(0, 2)))
             made.add(k)
         elif w < 0.875:
             ops.append(mkop(c, "proxy_read", k=rng.choice(sorted(made))))
